@@ -423,6 +423,10 @@ public:
         if (!basic::varint_.parse(iter, last, ctx, rctx, props_length))
             return false;
 
+        // the declared length must not reach beyond the enclosing scope
+        if (std::distance(iter, last) < props_length)
+            return false;
+
         const It scoped_last = iter + props_length;
         // attr = Props{};
 
